@@ -2,7 +2,7 @@
     main_root_within, no_nesting, guard_separates_staging, allowed_in_zone (C12),
     allowed_respects_committed (C03). *)
 From Coq Require Import List Arith PeanoNat NArith Ascii Bool Lia.
-From Rocfl Require Import Base.Bytes Model.FsOps Generated.Consts Model.Footprint Model.KnownC12
+From Rocfl Require Import Base.Bytes Model.FsOps Generated.Consts Model.Footprint
   Proofs.FootprintFacts Proofs.FootprintPaths.
 Import ListNotations.
 Open Scope N_scope.
@@ -164,6 +164,38 @@ Proof.
   intros s p m H. unfold mobj_at in H. apply find_some in H as [H1 H2]. apply fpath_eqb_eq in H2. split; assumption.
 Qed.
 
+(** * the shape of [allowed]: the nine cases, and "the operation runs or the call is staging infrastructure" *)
+Definition allowed_flat (c : cfg) (s : pre) (o : opd) (f : fsop) : bool :=
+  let k := o_kind o in
+  (uses_staging k && stage_infra c f)
+  || (takes_lock k && stage_lock c o f)
+  || (uses_staging k && stage_anc c o f)
+  || (body_ops k f && stage_body c o f && body_gate c s o)
+  || (match k with KMvExt => mv_sources c o f | _ => false end)
+  || (match k with KCommit | KUpgrade => commit_new c s o f || commit_version c s o f | _ => false end)
+  || (match k with KPurge => purge_main c s o f | _ => false end)
+  || (match k with KInit => init_ops c f | _ => false end)
+  || (match k with KUpgradeRepo => upgrade_repo_ops c f | _ => false end).
+
+Lemma allowed_flat_of : forall c s o f, allowed c s o f = true -> allowed_flat c s o f = true.
+Proof.
+  intros c s o f H. unfold allowed in H. unfold allowed_flat. destruct (op_runs c o); cbn [andb] in H.
+  - rewrite !orb_true_iff in *. tauto.
+  - rewrite orb_false_r in H. rewrite H. reflexivity.
+Qed.
+
+Lemma allowed_runs_or_infra : forall c s o f, allowed c s o f = true -> stage_infra c f = true \/ op_runs c o = true.
+Proof.
+  intros c s o f H. unfold allowed in H. destruct (op_runs c o); [right; reflexivity|]. left.
+  cbn [andb] in H. rewrite orb_false_r in H. apply andb_true_iff in H as [_ H]. exact H.
+Qed.
+
+Lemma allowed_of_flat : forall c s o f, op_runs c o = true -> allowed_flat c s o f = true -> allowed c s o f = true.
+Proof.
+  intros c s o f R H. unfold allowed. unfold allowed_flat in H. rewrite R. cbn [andb].
+  rewrite !orb_true_iff in *. tauto.
+Qed.
+
 (** * C12: every target of an allowed call lies in the zone *)
 
 Ltac zone_stg := unfold in_zone; apply orb_true_iff; left; apply orb_true_iff; left; apply orb_true_iff; right.
@@ -241,7 +273,7 @@ Lemma allowed_in_zone_lemma : forall c s o f,
   hex_ok (o_hex o) = true -> objs_in_root c s ->
   allowed c s o f = true -> forallb (in_zone c o f) (targets f) = true.
 Proof.
-  intros c s o f HX IR A. unfold allowed in A.
+  intros c s o f HX IR A. apply allowed_flat_of in A. unfold allowed_flat in A.
   pose proof (S_o_below c o HX) as SB. pose proof (below_under _ _ SB) as SU.
   repeat (apply orb_true_iff in A as [A|A]).
   - apply andb_true_iff in A as [_ A]. apply stage_infra_zone. exact A.
